@@ -305,11 +305,15 @@ def run_c02_fit(rec, tier, seed):
 # C03
 # ---------------------------------------------------------------------------
 
-def _fit_any(mode, fluxes, wav, dist, k, src, lo, hi):
+def _fit_any(mode, fluxes, wav, dist, k, src, lo, hi, extended=None, before=()):
     if mode == '2d':
         m = make_models_2d(['m%03d' % i for i in range(fluxes.shape[0])], fluxes, wav)
     else:
         m = make_models_3d(['m%03d' % i for i in range(fluxes.shape[0])], fluxes, wav, dist)
+        if extended is not None:
+            m.extended = np.array(extended, dtype=bool)     # what Models.read sets with remove_resolved=True
+    for o in before:
+        m.fit(o, k.copy(), -2. * np.ones(len(k)), lo, hi)
     return m, m.fit(src, k.copy(), -2. * np.ones(len(k)), lo, hi)
 
 
@@ -508,7 +512,8 @@ def c11_one(rec, case):
     n = len(flags)
     src = pkg.make_source('src', flags, flux, err)
     before = (src.valid.copy(), src.flux.copy(), src.error.copy(), src.name, src.x, src.y)
-    m, info = _fit_any(mode, fluxes, wav, dist, k, src, lo, hi)
+    ext = np.array(c['extended'], dtype=bool) if c.get('extended') is not None else None
+    m, info = _fit_any(mode, fluxes, wav, dist, k, src, lo, hi, extended=ext)
     ok = rec.expect(np.array_equal(src.valid, before[0]) and np.array_equal(src.flux, before[1]) and np.array_equal(src.error, before[2])
                     and (src.name, src.x, src.y) == before[3:], 'source_unchanged', 'fit() modified the source it was given', case)
     ok &= rec.expect(np.array_equal(np.asarray(m.fluxes.value), fluxes) and list(m.names) == ['m%03d' % i for i in range(fluxes.shape[0])],
@@ -519,16 +524,21 @@ def c11_one(rec, case):
     again = m.fit(src, k.copy(), -2. * np.ones(n), lo, hi)
     ok &= rec.expect(_same_fit(info, again) and close(info.model_fluxes, again.model_fluxes, 0, 0), 'history_independent',
                      'the same source fitted after other sources gives a different result', case)
+    # ... and on a fresh object that fitted the other sources FIRST
+    _, late = _fit_any(mode, fluxes, wav, dist, k, src, lo, hi, extended=ext,
+                       before=[pkg.make_source('o', o['valid'], o['flux'], o['error']) for o in c['others']])
+    ok &= rec.expect(_same_fit(info, late), 'history_independent',
+                     'a fitter that fitted other sources first gives a different result for this source than a fresh one%s' % (' (resolved models removed)' if ext is not None else ''), case)
     # filter permutation
     p = np.array(c['perm'])
     srcp = pkg.make_source('src', flags[p], flux[p], err[p])
     fl_p = fluxes[..., p]
-    mp, infop = _fit_any(mode, fl_p, wav[p], dist, k[p], srcp, lo, hi)
+    mp, infop = _fit_any(mode, fl_p, wav[p], dist, k[p], srcp, lo, hi, extended=None if ext is None else ext[..., p])
     ok &= rec.expect(_same_fit(info, infop, tol=1e-8), 'filter_permutation',
                      'permuting the filters (photometry alike) changed the fit', case)
     # model permutation
     q = np.array(c['mperm'])
-    mq, infoq = _fit_any(mode, fluxes[q], wav, dist, k, src, lo, hi)
+    mq, infoq = _fit_any(mode, fluxes[q], wav, dist, k, src, lo, hi, extended=None if ext is None else ext[q])
     names_q = [('m%03d' % q[int(s[1:])]) for s in infoq.model_name]
     byname = dict((nm, (float(a), float(s), float(ch))) for nm, a, s, ch in zip(info.model_name, info.av, info.sc, info.chi2))
     same = all(close(byname[nm], (float(a), float(s), float(ch)), 1e-9, 1e-9) for nm, a, s, ch in zip(names_q, infoq.av, infoq.sc, infoq.chi2))
@@ -550,7 +560,7 @@ def c11_one(rec, case):
 
 
 def run_c11(tier, seed):
-    rec = Recorder('C11', 'paired runs on the real Models.fit: history (1-5 other sources fitted in between), source/grid left unmodified, '
+    rec = Recorder('C11', 'paired runs on the real Models.fit: history (1-5 other sources fitted in between or before, with and without the resolved-model mask), source/grid left unmodified, '
                           'random filter permutation, random model permutation, brightness scaling over 8 decades; both modes; '
                           'distinct = (mode, flags, permutation)')
     rng = np.random.default_rng(seed + 11)
@@ -576,8 +586,12 @@ def run_c11(tier, seed):
             of[:2] = 1
             o = random_source(rng, n, of, placeholders=False)
             others.append(dict(valid=o.valid, flux=o.flux, error=o.error))
+        extended = None
+        if mode == '3d' and t % 4 == 0:
+            # remove_resolved=True: some (model, distance) cells are extended in some bands only
+            extended = (rng.uniform(size=(M, D, n)) < 0.25).astype(int)
         case = _case(seed, 'c11', mode=mode, fluxes=fluxes, k=k, wav=wav, dist=dist, valid=flags, flux=src.flux, error=src.error, lo=lo, hi=hi,
-                     others=others, perm=rng.permutation(n), mperm=rng.permutation(M), scale=float(10. ** rng.uniform(-4, 4)))
+                     others=others, extended=extended, perm=rng.permutation(n), mperm=rng.permutation(M), scale=float(10. ** rng.uniform(-4, 4)))
         try:
             c11_one(rec, case)
         except Exception as e:
